@@ -317,7 +317,9 @@ class Checker:
             self._known = common.load_known()
         new = [f for f in self.ctx.found if f["kind"] == "property"
                and not common.match_known(self.prop, f["signature"], self._known)]
-        return len(new) >= 3
+        # a run that blocks costs a watchdog period per attempt (shrinking: up to 20, confirmation: 25 s): two
+        # confirmed "never completes" reports end the generation
+        return len(new) >= 3 or getattr(self, "hangs_reported", 0) >= 2
 
     def check(self, case, rng=None):
         self.failing_salt = None
@@ -360,6 +362,8 @@ class Checker:
                     ctx.stat("watchdog-unconfirmed")
                     return True
                 small, sf = case, fails
+        if what == "never-completes":
+            self.hangs_reported = getattr(self, "hangs_reported", 0) + 1
         sig = "%s:%s:%s:%s" % (self.prop.lower(), what, config, "+".join(sorted(W.features(small))))
         if ORPH in W.features(small):
             sig = "%s:%s:%s:%s" % (self.prop.lower(), what, config, ORPH)
@@ -544,67 +548,68 @@ def real_pool_stage(ctx, prop, extra_oracle=None, n_random=4, kinds=None):
                 return info.runtime.submit(inner)
             return self.body(path)
 
+    def attempt(case, workers, timeout):
+        """
+        one run on a fresh real pool, bounded by the SIGALRM watchdog: with a callback that blocks on an already
+        completed future `process_graphql_query` ITSELF never returns (the callback runs on the caller's thread), so the
+        call is inside the watchdog, not only the wait for its result.  -> (status, result-or-exception, world)
+        """
+        rt = ThreadPoolRuntime(max_workers=workers)
+        w = RealWorld(case)
+        try:
+            schema, doc = W.prepared(case)
+            with W.watchdog(timeout + 0.5):
+                fut = process_graphql_query(schema, doc, context=w, runtime=rt, executor_cls=Executor, validators=[])
+                return "ok", fut.result(timeout=timeout), w
+        except (concurrent.futures.TimeoutError, W.Watchdog):
+            return "hang", None, w
+        except KeyboardInterrupt:
+            raise
+        except BaseException as err:  # noqa
+            return "failed", err, w
+        finally:
+            try:
+                rt._inner.shutdown(wait=False, cancel_futures=True)
+            except TypeError:
+                rt._inner.shutdown(wait=False)
+
     ran = 0
+    hangs = 0
     for case in real_pool_cases(ctx.rng, n_random):
         if kinds and case["kind"] not in kinds:
             continue
         ref = W.run_blocking(case)
         for workers in (1, 2):
-            if ctx.out_of_time():
-                return
-            rt = ThreadPoolRuntime(max_workers=workers)
-            w = RealWorld(case)
+            if ctx.out_of_time() or hangs >= 1:       # every confirmed hang costs ~30 s of wall clock: one is enough
+                break
             cfg = "threadpool-real-w%d" % workers
             detail = {"case": case, "config": cfg, "schedule": None, "document": W.document(case)}
             feats = "+".join(sorted(W.features(case)))
             if "completion-raises-after-sub-resolvers" in W.features(case):
                 feats = "completion-raises-after-sub-resolvers"      # the known class keeps one stable signature
-            try:
-                schema, doc = W.prepared(case)
-                try:
-                    fut = process_graphql_query(schema, doc, context=w, runtime=rt, executor_cls=Executor, validators=[])
-                    res = fut.result(timeout=4)
-                    obs = W.obs_of_result(w, result=res, status="ok")
-                except concurrent.futures.TimeoutError:
-                    # wall-clock timeout: confirm with a fresh pool and a long timeout before reporting (machine load)
-                    try:
-                        rt._inner.shutdown(wait=False, cancel_futures=True)
-                    except TypeError:
-                        rt._inner.shutdown(wait=False)
-                    rt = ThreadPoolRuntime(max_workers=workers)
-                    w = RealWorld(case)
-                    try:
-                        fut = process_graphql_query(schema, doc, context=w, runtime=rt, executor_cls=Executor, validators=[])
-                        fut.result(timeout=25)
-                        ctx.stat("watchdog-unconfirmed")
-                        ctx.notes.append("real pool: 4 s timeout not confirmed by the 25 s run (machine load)")
-                        continue
-                    except concurrent.futures.TimeoutError:
-                        pass
-                    except Exception:  # noqa
-                        ctx.stat("watchdog-unconfirmed")
-                        continue
-                    ctx.fail("%s:never-completes:%s:%s" % (prop.lower(), cfg, feats),
-                             "real pool with %d worker(s): no result within 4 s (a worker is blocked / the result future is never set)" % workers,
-                             detail)
+            status, res, w = attempt(case, workers, 4)
+            if status == "hang":
+                # wall-clock timeout: confirm with a fresh pool and a long timeout before reporting (machine load)
+                status2, _, _ = attempt(case, workers, 12 if hangs else 25)
+                if status2 != "hang":
+                    ctx.stat("watchdog-unconfirmed")
+                    ctx.notes.append("real pool: 4 s timeout not confirmed by the long run (machine load)")
                     continue
-                except BaseException as err:  # noqa
-                    if isinstance(err, (W.Watchdog, KeyboardInterrupt)):
-                        raise
-                    obs = W.obs_of_result(w, exc=err, status="failed")
-                ran += 1
-                ctx.count()
-                ctx.stat("config=" + cfg)
-                bad = compare_to_reference(case, ref, obs, cfg)
-                if not bad and extra_oracle is not None:
-                    bad = extra_oracle(case, cfg, None, obs)
-                if bad:
-                    ctx.fail("%s:%s:%s:%s" % (prop.lower(), bad[0], cfg, feats), "%s (%s)" % (bad[1], cfg), detail)
-            finally:
-                try:
-                    rt._inner.shutdown(wait=False, cancel_futures=True)
-                except TypeError:
-                    rt._inner.shutdown(wait=False)
+                hangs += 1
+                ctx.fail("%s:never-completes:%s:%s" % (prop.lower(), cfg, feats),
+                         "real pool with %d worker(s): no result within 4 s (a worker is blocked / the result future is never set)" % workers,
+                         detail)
+                continue
+            obs = W.obs_of_result(w, result=res, status="ok") if status == "ok" else W.obs_of_result(w, exc=res, status="failed")
+            ran += 1
+            ctx.count()
+            ctx.stat("config=" + cfg)
+            bad = compare_to_reference(case, ref, obs, cfg)
+            if not bad and extra_oracle is not None:
+                bad = extra_oracle(case, cfg, None, obs)
+            if bad:
+                ctx.fail("%s:%s:%s:%s" % (prop.lower(), bad[0], cfg, feats), "%s (%s)" % (bad[1], cfg), detail)
+    W.release_stuck_workers(ctx)
     ctx.extra["real_pool_runs"] = ran
 
 
@@ -660,8 +665,15 @@ def args_stream(ctx, n_random):
         return [status, type(exc).__name__ if exc is not None else None]
 
     def run_cfg(cfg, schema, query, lifo):
+        # every configuration here is single-threaded (manual executor / private loop, no worker threads): a blocking wait of
+        # the code under test is detected deterministically, also when the code swallowed the detector's exception
+        wd = W.watchdog(single_threaded=True)
+        got = _run_cfg(cfg, schema, query, lifo, wd)
+        return ["hang"] if wd.blocked else got
+
+    def _run_cfg(cfg, schema, query, lifo, wd):
         try:
-            with W.watchdog():
+            with wd:
                 if cfg == "blocking":
                     return canon("ok", process_graphql_query(schema, query, runtime=BlockingRuntime(), executor_cls=BlockingExecutor))
                 if cfg == "generic-blocking":
@@ -707,8 +719,9 @@ def args_stream(ctx, n_random):
             return canon("failed", exc=err)
 
     n = 0
+    hangs = 0
     for sdl, query in args_cases(ctx.rng, n_random):
-        if ctx.out_of_time():
+        if ctx.out_of_time() or hangs >= 2:          # a tree that blocks: two reports are enough
             break
         try:
             schema = build_schema(sdl)
@@ -738,6 +751,7 @@ def args_stream(ctx, n_random):
                         ctx.stat("watchdog-unconfirmed")
                         continue
                 import re
+                hangs += got[0] == "hang"
                 argn = sorted(set(re.findall(r"(\w+):", query)))
                 ctx.fail("c08:args:%s:%s-vs-%s:%s" % (cfg, ref[0], got[0], "+".join(a for a in argn if a in ARG_NAMES)[:60]),
                          "field arguments: %s gives %s, BlockingExecutor gives %s" % (cfg, got, ref),
@@ -891,9 +905,10 @@ def runtime_api_stream(ctx):
                 return on_loop(main, timeout)
             rt = ThreadPoolRuntime(max_workers=2)
             try:
-                fut = process_graphql_query(schema, query, runtime=rt, executor_cls=Executor)
-                return canon(fut.result(timeout=timeout))
-            except concurrent.futures.TimeoutError:
+                with W.watchdog(timeout + 0.5):      # the call itself may block (a callback that waits, run on the caller's thread)
+                    fut = process_graphql_query(schema, query, runtime=rt, executor_cls=Executor)
+                    return canon(fut.result(timeout=timeout))
+            except (concurrent.futures.TimeoutError, W.Watchdog):
                 return ["timeout"]
             finally:
                 try:
@@ -1182,9 +1197,15 @@ def probe_resolver_raises_execution_error(ctx):
                 with_resolver(boom)
                 rt = ThreadPoolRuntime(max_workers=2)
                 try:
-                    return process_graphql_query(schema, query, runtime=rt, executor_cls=Executor).result(timeout=20)
+                    with W.watchdog(21):
+                        return process_graphql_query(schema, query, runtime=rt, executor_cls=Executor).result(timeout=20)
+                except W.Watchdog:
+                    raise TimeoutError("the call blocks (watchdog)")
                 finally:
-                    rt._inner.shutdown(wait=False)
+                    try:
+                        rt._inner.shutdown(wait=False, cancel_futures=True)
+                    except TypeError:
+                        rt._inner.shutdown(wait=False)
 
             def blocking(cls):
                 with_resolver(boom)
@@ -1306,7 +1327,13 @@ def probe_deep_nesting(ctx, depths=(20, 60, 80)):
             return canon(lambda: process_graphql_query(schema, q, runtime=BlockingRuntime(), executor_cls=Executor))
         rt = ThreadPoolRuntime(max_workers=2)
         try:
-            return canon(lambda: process_graphql_query(schema, q, runtime=rt, executor_cls=Executor).result(timeout=timeout))
+            def pool():
+                try:
+                    with W.watchdog(timeout + 0.5):
+                        return process_graphql_query(schema, q, runtime=rt, executor_cls=Executor).result(timeout=timeout)
+                except W.Watchdog:
+                    raise concurrent.futures.TimeoutError()
+            return canon(pool)
         finally:
             try:
                 rt._inner.shutdown(wait=False, cancel_futures=True)
@@ -1387,21 +1414,28 @@ def abort_order_stage(ctx):
                     rt = ThreadPoolRuntime(max_workers=1)
                     rt._inner.shutdown(wait=False)
                     rt._inner = W.ManualExecutor(w)
-                    fut = process_graphql_query(schema, "{ a b }", runtime=rt, executor_cls=Executor)
-                    entries = list(w.queue)
-                    for i in order:
-                        e = entries[i]
-                        if e.fut.done():
-                            continue
-                        try:
-                            r = e.fn(*e.args, **e.kwargs)
-                        except BaseException as err:  # noqa
-                            e.fut.set_exception(err)
-                        else:
-                            e.fut.set_result(r)
-                    if not fut.done():
-                        raise TimeoutError("pending")
-                    return fut.result()
+                    wd = W.watchdog(single_threaded=True)       # single-threaded world: a blocking wait is a deadlock
+                    try:
+                        with wd:
+                            fut = process_graphql_query(schema, "{ a b }", runtime=rt, executor_cls=Executor)
+                            entries = list(w.queue)
+                            for i in order:
+                                e = entries[i]
+                                if e.fut.done():
+                                    continue
+                                try:
+                                    r = e.fn(*e.args, **e.kwargs)
+                                except BaseException as err:  # noqa
+                                    e.fut.set_exception(err)
+                                else:
+                                    e.fut.set_result(r)
+                            if W._Deadlock.blocked:
+                                raise TimeoutError("blocks")
+                            if not fut.done():
+                                raise TimeoutError("pending")
+                            return fut.result()
+                    except W.Watchdog:
+                        raise TimeoutError("blocks")
 
                 def aio():
                     loop = W.private_loop()
@@ -1529,22 +1563,112 @@ def abandoned_stage(ctx, prop):
     ctx.extra["abandoned_stage_runs"] = n
 
 
+def probe_gather_lost_update(ctx):
+    """
+    NAMED PROBE - the Lean refutation witness `gather_nonatomic_lost_update_preempted` replayed on the REAL
+    `gather_futures`: two pending futures; worker 0 (this thread) runs `on_finish(f0)` under an opcode tracer
+    (`sys.settrace`, `f_trace_opcodes`) that, at the `STORE_DEREF done` of `done += 1` - i.e. AFTER the LOAD, BEFORE the
+    STORE - lets worker 1 (a real second thread) complete `f1` and run its whole `on_finish(f1)`; then worker 0 goes on.
+    Model schedule: LOAD0 | LOAD1 STORE1 TEST1 | STORE0 TEST0 = [0, 1, 1, 1, 0, 0] (RuntimeRace.lean). If one increment
+    is lost, both callbacks have returned, every future is complete and the aggregate Future is never set: "execution
+    always completes once all resolvers have completed" is false for that interleaving. With a lock around the increment
+    (theorems gather_locked_sets_outer / gather_atomic_sets_outer; proposed_fixes/C08-gather-counter-lock.patch) worker 1
+    waits at the lock, nothing is lost and the probe stays silent. The preemption is FORCED: stock CPython 3.12 with the GIL
+    switches threads only at eval-breaker checks, none of which lies between the LOAD and the STORE.
+    """
+    import dis
+    import sys
+    import threading
+    from concurrent.futures import Future
+    from py_gql.execution.runtime import threadpool as tp
+
+    def find(code, name):
+        for c in code.co_consts:
+            if hasattr(c, "co_name"):
+                if c.co_name == name:
+                    return c
+                r = find(c, name)
+                if r is not None:
+                    return r
+        return None
+    gather = getattr(tp, "gather_futures", None)
+    code = find(gather.__code__, "on_finish") if gather is not None else None
+    if code is None:
+        ctx.notes.append("gather-lost-update probe: gather_futures.on_finish not found (shape changed): probe skipped")
+        return True
+    ins_at = {i.offset: i for i in dis.get_instructions(code)}
+    rmw = [i.opname for i in ins_at.values() if i.argval == "done" and i.opname in ("LOAD_DEREF", "STORE_DEREF")]
+    ctx.extra["gather_counter_bytecode"] = rmw          # LOAD_DEREF, STORE_DEREF, ...: the increment is not one instruction
+    f0, f1 = Future(), Future()
+    outer = gather([f0, f1])
+    st = {"fired": False, "inside": None, "t1": None}
+
+    def local(frame, event, arg):
+        if event == "opcode" and not st["fired"]:
+            ins = ins_at.get(frame.f_lasti)
+            if ins is not None and ins.opname == "STORE_DEREF" and ins.argval == "done":
+                st["fired"] = True
+                t1 = threading.Thread(target=lambda: f1.set_result(1), daemon=True)
+                st["t1"] = t1
+                t1.start()
+                t1.join(0.5)          # with a lock around the increment worker 1 blocks here: go on after the window
+                st["inside"] = not t1.is_alive()
+        return local
+
+    def tracer(frame, event, arg):
+        if event == "call" and frame.f_code is code and not st["fired"]:
+            frame.f_trace_opcodes = True
+            sys.settrace(tracer)          # CPython 3.12: re-instrument so that opcode events are delivered for this frame
+            return local
+        return None
+    old = sys.gettrace()
+    sys.settrace(tracer)
+    try:
+        f0.set_result(0)
+    finally:
+        sys.settrace(old)
+    ctx.count()
+    if not st["fired"]:
+        ctx.notes.append("gather-lost-update probe: no opcode event at the increment (tracing unavailable): probe skipped")
+        return True
+    st["t1"].join(5)
+    ctx.stat("probe:gather-lost-update:" + ("interleaved" if st["inside"] else "worker-1-waited"))
+    if st["t1"].is_alive() or not (f0.done() and f1.done()):
+        return True                      # did not run to the end: nothing to judge
+    if not outer.done():
+        ctx.fail("c08:gather-lost-update:forced-preemption-between-load-and-store",
+                 "gather_futures over two futures, worker 1's on_finish interleaved between the LOAD and the STORE of worker 0's "
+                 "`done += 1`: both futures complete, both callbacks returned, the aggregate Future is never set "
+                 "(Lean: gather_nonatomic_lost_update_preempted)",
+                 {"probe": "gather-lost-update", "model_schedule": [0, 1, 1, 1, 0, 0], "bytecode": rmw})
+        return False
+    return True
+
+
+def stages(ctx, chk):
+    return [
+        ("gather-lost-update", lambda: probe_gather_lost_update(ctx)),
+        ("generator-history", lambda: probe_generator_history(ctx, "one" if ctx.seed % 2 == 0 else "nums")),     # before anything else touches the runtimes
+        ("streams", lambda: run_streams(ctx, chk)),
+        ("real-pool", lambda: real_pool_stage(ctx, "C08", n_random=6 if ctx.tier == "quick" else 40)),
+        ("args", lambda: args_stream(ctx, 12 if ctx.tier == "quick" else 120)),
+        ("runtime-api", lambda: runtime_api_stream(ctx)),
+        ("history", lambda: history_stream(ctx, "C08")),
+        ("many-root-fields", lambda: probe_many_root_fields(ctx, "C08", kinds=("query",))),
+        ("resolver-raises-execution-error", lambda: probe_resolver_raises_execution_error(ctx)),
+        ("deep-nesting", lambda: probe_deep_nesting(ctx)),
+        ("abort-order", lambda: abort_order_stage(ctx)),
+    ]
+
+
 def run(ctx):
     W.quiet()
     chk = Checker(ctx, "C08")
     try:
-        probe_generator_history(ctx, "one" if ctx.seed % 2 == 0 else "nums")     # before anything else touches the runtimes
-        run_streams(ctx, chk)
-        real_pool_stage(ctx, "C08", n_random=6 if ctx.tier == "quick" else 40)
-        args_stream(ctx, 12 if ctx.tier == "quick" else 120)
-        runtime_api_stream(ctx)
-        history_stream(ctx, "C08")
-        probe_many_root_fields(ctx, "C08", kinds=("query",))
-        probe_resolver_raises_execution_error(ctx)
-        probe_deep_nesting(ctx)
-        abort_order_stage(ctx)
+        W.run_stages(ctx, "C08", stages(ctx, chk))
     finally:
         W.close_private_loop()
+        W.release_stuck_workers(ctx)
     ctx.extra["configurations"] = list(CONFIGS)
     ctx.extra["all_schedules_up_to_tasks"] = chk.max_tasks_all
 
@@ -1552,6 +1676,16 @@ def run(ctx):
 def replay(ctx, data):
     W.quiet()
     inp = data.get("input", {})
+    if inp.get("probe") == "gather-lost-update":
+        return probe_gather_lost_update(ctx)
+    if inp.get("probe") == "stage":
+        before = len(ctx.found)
+        try:
+            W.run_stages(ctx, "C08", stages(ctx, Checker(ctx, "C08")), replaying=inp.get("stage"))
+        finally:
+            W.close_private_loop()
+            W.release_stuck_workers(ctx)
+        return len(ctx.found) == before
     if inp.get("probe"):
         before = len(ctx.found)
         try:
